@@ -89,6 +89,20 @@ func (q *rtmp2MpegtsFilter) Push(msg base.RtmpMsg) {
 
 // ---------------------------------------------------------------------------------------------------------------------
 
+// Flush 输入流结束时调用
+//
+// 如果还处于缓存探测阶段（比如只有音频或只有视频，且消息数还没有达到maxMsgSize流就结束了），
+// 将缓存的数据吐出来，避免短流的数据全部丢失
+func (q *rtmp2MpegtsFilter) Flush() {
+	if q.done || len(q.data) == 0 {
+		return
+	}
+	if q.videoCodecId == -1 && q.audioCodecId == -1 {
+		return
+	}
+	q.drain()
+}
+
 func (q *rtmp2MpegtsFilter) drain() {
 	patpmt := mpegts.PackPat()
 	patpmt = append(patpmt, mpegts.PackPmt(q.videoCodecId, q.audioCodecId)...)
